@@ -961,11 +961,12 @@ class SyncObj(object):
                 if self.__serializer.setTransmissionData(serialized):
                     self.__loadDumpFile(clearJournal=True)
                     self.__sendNextNodeIdx(node, success=True)
+                    lastNewIdx = self.__getCurrentLogIndex()
 
-            if leaderCommitIndex > self.__raftCommitIndex:
-                # entries after lastNewIdx were not checked against the leader's log
-                checkedIdx = self.__getCurrentLogIndex() if lastNewIdx is None else lastNewIdx
-                self.__raftCommitIndex = max(self.__raftCommitIndex, min(leaderCommitIndex, checkedIdx))
+            # lastNewIdx is the last entry known to match the leader's log; a message
+            # that verified nothing (partial snapshot chunk) must not move the commit index
+            if lastNewIdx is not None and leaderCommitIndex > self.__raftCommitIndex:
+                self.__raftCommitIndex = max(self.__raftCommitIndex, min(leaderCommitIndex, lastNewIdx))
 
             self.__raftLog.setRaftCommitIndex(self.__raftCommitIndex)
 
